@@ -48,7 +48,9 @@ type Prog struct {
 	Alloc bool   `json:"alloc"` // guarded allocator (else Go-heap memory)
 	Move  bool   `json:"move"`  // allocator moves the memory on every growth
 	// Mem: whose memory and of what kind: "" (defined here), "shared" (defined here, shared), "imported" (defined and
-	// exported by another module instantiated first), "imported-shared"
+	// exported by another module instantiated first), "imported-shared", "imported-mismatch" (the importer DECLARES the
+	// memory shared, the owner defines a plain one that moves when it grows: the linker has to refuse this, because
+	// compiled code of the importer relies on a shared memory never moving; if it links, the accesses must still be right)
 	Mem string `json:"mem,omitempty"`
 	// CFM: the runtime is configured WithMemoryCapacityFromMax(true) (a performance knob: the buffer's capacity is
 	// the maximum from the start); with a custom allocator the memory may still move on every growth
@@ -205,11 +207,15 @@ func emit(ss []Stmt) []byte {
 func (p *Prog) wasmBytes() []byte {
 	m := wb.New()
 	mx := p.Max
-	shared := p.Mem == "shared" || p.Mem == "imported-shared"
+	shared := p.Mem == "shared" || p.Mem == "imported-shared" || p.Mem == "imported-mismatch"
 	if strings.HasPrefix(p.Mem, "imported") {
+		// the memory import is followed by another import (what the linker decides about the memory must not depend on
+		// the memory being the last import it looks at)
 		m.M.ImportSection = append(m.M.ImportSection, wasm.Import{Type: wasm.ExternTypeMemory, Module: "owner", Name: "memory",
-			DescMem: &wasm.Memory{Min: p.Pages, Max: mx, IsMaxEncoded: true, IsShared: shared}})
+			DescMem: &wasm.Memory{Min: p.Pages, Max: mx, IsMaxEncoded: true, IsShared: shared}},
+			wasm.Import{Type: wasm.ExternTypeGlobal, Module: "owner", Name: "g", DescGlobal: wasm.GlobalType{ValType: wasm.ValueTypeI32}})
 		m.M.ImportMemoryCount = 1
+		m.M.ImportGlobalCount = 1
 	} else {
 		m.Memory(p.Pages, &mx, shared, "memory")
 	}
@@ -229,6 +235,8 @@ func (p *Prog) ownerBytes() []byte {
 	m := wb.New()
 	mx := p.Max
 	m.Memory(p.Pages, &mx, p.Mem == "imported-shared", "memory")
+	m.M.GlobalSection = append(m.M.GlobalSection, wasm.Global{Type: wasm.GlobalType{ValType: wasm.ValueTypeI32}, Init: wasm.ConstantExpression{Opcode: wasm.OpcodeI32Const, Data: []byte{7}}})
+	m.M.ExportSection = append(m.M.ExportSection, wasm.Export{Type: wasm.ExternTypeGlobal, Name: "g", Index: 0})
 	return m.Bytes()
 }
 
